@@ -117,15 +117,39 @@ def _ok_operand_locals(b):
             if s["k"] == "assign" and not s["p"][1] and s["rv"]["k"] == "agg" and s["rv"].get("variant") == "Ok" and s["rv"].get("def", "").endswith("result::Result"):
                 dst = s["p"][0]
                 if dst != 0:
-                    if b.local_ty(dst) != rty:
-                        continue
-                    fwd, _, _ = b.slice_fwd([dst])
-                    if 0 not in fwd:
+                    if b.local_ty(dst) != rty or not _flows_unchanged_to_ret(b, dst):
                         continue
                 for o in s["rv"]["ops"]:
                     p = op_place(o)
                     out.append((blk, p[0] if p is not None else None, o))
     return out
+
+
+def _flows_unchanged_to_ret(b, local):
+    """the value reaches the return place as it is: through plain moves, through the return of a spliced callee, and through the
+    `Poll::Ready(..)` wrapper / `.0` unwrapping of a spliced await — not through `?`, a match or a new aggregate"""
+    seen, work = set(), [local]
+    while work:
+        l = work.pop()
+        if l in seen:
+            continue
+        seen.add(l)
+        if l == 0:
+            return True
+        for blk in b.rpo():
+            for s in b.stmts(blk):
+                if s["k"] != "assign" or s["p"][1]:
+                    continue
+                rv = s["rv"]
+                if rv["k"] == "use":
+                    p = op_place(rv["op"])
+                    if p is not None and p[0] == l and (not p[1] or (len(p[1]) == 2 and p[1][0][0] == "downcast" and p[1][0][1] == "Ready" and p[1][1][0] == "field")):
+                        work.append(s["p"][0])
+                elif rv["k"] == "agg" and rv.get("variant") == "Ready" and (rv.get("def") or "").endswith("poll::Poll"):
+                    p = op_place(rv["ops"][0]) if rv["ops"] else None
+                    if p is not None and not p[1] and p[0] == l:
+                        work.append(s["p"][0])
+    return False
 
 
 def _enum_item(prog, path):
@@ -180,7 +204,7 @@ def run(ctx):
             parts = o.key.split("|")
             n += 1
             ctx.ob("H5", parts[1], f"{o.rule}:{parts[2]}", o.where, o.ok, o.detail)
-    ctx.floor("H5", "need-more obligations of the two SOCKS5 request decoders (imported from C04)", 4, n)
+    ctx.floor("H5", "need-more obligations of the two SOCKS5 request decoders (imported from C04)", 2, n)
 
 
 def _family_calls(prog, root):
@@ -213,7 +237,15 @@ def _check_dispatcher(ctx, prog, root):
         return
     # the sniffer is the function the peeks sit in; its flat view is analysed on its own as well
     peek_fns = {arm_body.origin[blk] for (blk, c, _) in arm_body.calls() if c.name == "TcpStream::peek"}
-    sn_def = sorted(peek_fns)[0]
+    # the sniffer: the smallest spliced function whose own flat view contains every peek (a sniffer split into `is it SOCKS5?` and
+    # `parse the HTTP request` helpers is their common caller)
+    cands_ = []
+    for o in set(arm_body.origin):
+        fo = prog.flat(o)
+        got = {fo.origin[blk] for (blk, c, _) in fo.calls() if c.name == "TcpStream::peek"}
+        if peek_fns <= got:
+            cands_.append((fo.n, o))
+    sn_def = min(cands_)[1] if cands_ else sorted(peek_fns)[0]
     sn_main = prog.flat(sn_def)
     sn_bodies = [sn_main]
     # classification enum: an enum with >= 2 variants carrying the Address that is switched on in the arm body
@@ -376,15 +408,17 @@ def _check_dispatcher(ctx, prog, root):
     for v in sorted(set(discr_of) - tunnel_variants - {socks_variant}):
         blocks = arm_blocks(v)
         oks = [blk for (blk, l, op) in okv if blk in blocks]
-        ok = not oks and err_return_reachable_only(arm_body, arm_entry[v])
+        ok = not oks and (err_return_reachable_only(arm_body, arm_entry[v]) or flat_err_only(prog, arm_body, arm_entry[v]))
         ctx.ob("H4", root.defp, f"{v}:refused", loc(arm_body.sp), ok,
                f"classification {v} reaches Err only" if ok else f"classification {v} (not a tunnel request) can reach an Ok(address) return")
 
     # ---------------- H2a: SOCKS5 reply status on the dispatcher side ---------------------------------------
     statuses = set()
     where = arm_body.sp
+    ok_blocks = [blk_ for (blk_, _, _) in okv]
     for blk in arm_blocks(socks_variant):
-        if arm_body.origin[blk] == exch or prog.body(arm_body.origin[blk]).root == ex_root:
+        # replies built on a path that can still end in Ok(address); a failure reply on a refusing path is not the handshake's answer
+        if not any(arm_body.can_reach(blk, ob_) for ob_ in ok_blocks) or flat_err_only(prog, arm_body, blk):
             continue
         for s_ in arm_body.stmts(blk):
             if s_["k"] == "assign" and s_["rv"]["k"] == "agg" and s_["rv"].get("ak") == "adt" and (s_["rv"].get("def") or "").endswith("Socks5CommandStatus"):
@@ -546,7 +580,7 @@ def _check_extractor(ctx, prog, eb, enum_path, tunnel_variants):
             ok = False
             for g in gs:
                 ft = g.target_for(1)
-                if err_return_reachable_only(eb, ft):
+                if err_return_reachable_only(eb, ft) or flat_err_only(prog, eb, ft):
                     ok = True
             ctx.ob("H4", eb.defp, f"{last_seg(c.name)}:failure-returns-err", loc(t["sp"]), ok,
                    "the failure edge returns Err (the request is refused)" if ok else "the failure of this parse step does not return Err (defaulted or ignored)")
@@ -617,7 +651,10 @@ def _check_exchange(ctx, prog, ex):
         return "?"
 
     ms = [(blk, t) for (blk, c, t) in sends if kind_of_send(t).startswith("method-selection")]
-    cr = [(blk, t) for (blk, c, t) in sends if kind_of_send(t) == "command-reply:caller"]
+    okb_ = [blk_ for (blk_, _, _) in _ok_operand_locals(ex)]
+    # the reply that answers the request: sent on a path that can still succeed (the caller's reply, or one the exchange builds itself)
+    cr = [(blk, t) for (blk, c, t) in sends if kind_of_send(t).startswith("command-reply") and any(ex.can_reach(blk, ob_) for ob_ in okb_)
+          and not flat_err_only(prog, ex, blk)]
     for (blk, t) in ms:
         k = kind_of_send(t)
         ok1 = k == "method-selection:NoAuth"
@@ -742,7 +779,8 @@ def _check_sniffer(ctx, prog, sn, enum_path, tunnel_variants, discr_of):
                     and short in sn.local_ty(s["p"][0]):
                 cons.append((blk, s["rv"].get("variant")))
     ext_calls = [(blk, c, t) for (blk, c, t) in calls if prog.body(c.target) is not None and short in prog.body(c.target).local_ty(0)]
-    touching = [(blk, c, t) for (blk, c, t) in calls if not t["sp"][3] and _call_takes_stream(sn, t) and c.name != "TcpStream::peek"]
+    touching = [(blk, c, t) for (blk, c, t) in calls if not t["sp"][3] and _call_takes_stream(sn, t) and c.name != "TcpStream::peek"
+                and prog.body(c.target) is None and not (c.method == "poll" and c.trait)]
     # H2c: a consuming / writing call on the stream may only lead to non-tunnel classifications
     for (blk, c, t) in touching:
         reach = sn.reach_from(blk)
